@@ -165,11 +165,13 @@ let main_seq file do_abs =
   let dirty = ref true and last_abs = ref ("", 0, 0, true) and last_counts = ref (0, 0) in
   let ntxn_total = ref 0 and nacq_total = ref 0 in
   let nsteps = ref 0 in
+  let lazy_step = ref false in   (* Q: the shrinker may be running, no dump was taken: reply only *)
   (try
      while true do
        let line = input_line ic in
        let toks = split_on ' ' line in
        match toks with
+       | "Q" :: _ -> lazy_step := true
        | "I" :: s :: un :: nm :: mfs :: wt :: ni :: _ ->
          sz := n_of_string s;
          params := { p_name_max = n_of_string nm; p_maxfilesize = n_of_string mfs;
@@ -222,6 +224,9 @@ let main_seq file do_abs =
        | "E" :: _ ->
          incr nsteps;
          let (fb, fi, quiescent) = !alloc in
+         let do_abs = do_abs && not !lazy_step in
+         if !lazy_step then dirty := true;
+         lazy_step := false;
          let reply_ok, detail =
            match !call, !oreply with
            | Some c, Some o ->
